@@ -28,15 +28,22 @@ def schedules(pid, tier, seed):
 
 
 def run_model(work, pid, tier, seed):
-    budget = 20 if tier == "quick" else 150
-    rc, out = vlib.tlc(work, 'Router', cfg='MC_Rtr_q.cfg' if tier == 'quick' else 'MC_Rtr_t.cfg', workers=vlib.NCPU, timeout=budget + 120, name='mc_rtr',
-                       env_extra={'JAVA_TOOL_OPTIONS': '-Dtlc2.TLC.stopAfter=%d' % budget})
-    notes = []
-    if 'Error:' in out:
-        notes.append('model checking Router.tla: TLC error or invariant violated by the SPECIFICATION :: ' + out[-300:])
-        print('MODEL-NOTE: ' + notes[-1][:120])
-    st, gen = vlib.tlc_states(out)
-    left = re.search(r'(\d+) states left on queue', out)
+    # MC_Rtr_q is explored completely (0.9 M states, ~14 s: deterministic counts); the thorough tier adds two larger complete
+    # configurations and the time-boxed big one
+    cfgs = [('MC_Rtr_q.cfg', 600)] if tier == 'quick' else [('MC_Rtr_q.cfg', 600), ('MC_Rtr_m1.cfg', 900), ('MC_Rtr_m2.cfg', 900), ('MC_Rtr_t.cfg', 150)]
+    notes, detail = [], []
+    st = gen = 0
+    for c, budget in cfgs:
+        rc, out = vlib.tlc(work, 'Router', cfg=c, workers=vlib.NCPU, timeout=budget + 120, name='mc_rtr_' + c,
+                           env_extra={'JAVA_TOOL_OPTIONS': '-Dtlc2.TLC.stopAfter=%d' % budget})
+        if 'Error:' in out:
+            notes.append('model checking Router.tla (%s): TLC error or invariant violated by the SPECIFICATION :: ' % c + out[-300:])
+            print('MODEL-NOTE: ' + notes[-1][:120])
+        s1, g1 = vlib.tlc_states(out)
+        left = re.findall(r'(\d+) states left on queue', out)
+        detail.append(dict(cfg=c, distinct_states=s1, states_generated=g1, complete=bool(left) and int(left[-1]) == 0 and 'Error:' not in out))
+        st += s1
+        gen += g1
     n = 1500 if tier == 'quick' else 30000
     rc, out2 = vlib.tlc(work, 'MC_Rtr', cfg='SIM_Rtr.cfg', workers=vlib.NCPU, timeout=900, name='sim_rtr',
                         extra=['-simulate', 'num=%d' % max(1, n // vlib.NCPU), '-depth', '120', '-seed', str(seed)])
@@ -45,7 +52,9 @@ def run_model(work, pid, tier, seed):
         print('MODEL-NOTE: ' + notes[-1][:120])
     m = re.search(r'The number of states generated: (\d+)', out2)
     sims = int(m.group(1)) if m else 0
-    return st, gen, [dict(cfg='MC_Rtr', distinct_states=st, states_generated=gen, complete=bool(left) and int(left.group(1)) == 0, notes=notes)], sims
+    for d in detail:
+        d['notes'] = notes
+    return st, gen, detail, sims
 
 
 CONF = {}
